@@ -16,7 +16,7 @@ func init() {
 	register(&PropDef{
 		ID:    "C41",
 		Pkgs:  []string{rlsp, rlsk, rlsa},
-		Claim: "Decides the structural part: for each header key builder the value stored is the comma-join of the values of the first configured header name that is present (the name walk stops at the first hit); host/service/method keys are added only when configured and all constant keys are copied; the cache-key string is built from that same map and every variable component written into it goes through an escaper that covers the separators the format uses ('=' and the escape character everywhere, ',' in keys) or a quoting verb, so the encoding is injective; the data cache's accounted size is written only where an entry is inserted (+size), deleted (-size) or resized (-old, +new), each paired in the same function with the entry-map and LRU update; entries are inserted only after a lookup of the same key missed and deleted only with the entry stored under that key; resize evicts the LRU front key while over the limit and stops at an entry not yet evictable; a lookup refreshes recency; the look-back window changes its total only together with the bucket it adds to or clears, ignores samples older than the window, leaves everything untouched when the clock does not advance, and the throttler uses a 30 s window.",
+		Claim: "Decides the structural part: for each header key builder the value stored is the comma-join of the values of the first configured header name that is present (the name walk stops at the first hit); host/service/method keys are added only when configured and all constant keys are copied; the cache-key string is built from that same map and every variable component written into it goes through an escaper that covers the separators the format uses ('=' and the escape character everywhere, ',' in keys) or a quoting verb, so the encoding is injective; the data cache's accounted size is written only where an entry is inserted (+size), deleted (-size) or resized (-old, +new), each paired in the same function with the entry-map and LRU update; entries are inserted only after a lookup of the same key missed and deleted only with the entry stored under that key; resize evicts the LRU front key while over the limit and stops at an entry not yet evictable; a lookup refreshes recency; the look-back window changes its total only together with the bucket it adds to or clears, ignores samples older than the window, leaves everything untouched when the clock does not advance, and the throttler uses a 30 s window. The key builder for a path is the exact entry before the service-prefix entry, and no keys are produced only without both; cache resize/add/get are skipped only after shutdown (add also for an entry larger than the cache).",
 		NotDecided:  []string{"LRU order over all operation histories", "that the sum of the look-back buckets equals the events of exactly the last 30 s (bucket granularity)", "throttle probability arithmetic"},
 		Assumptions: []string{"container/list and strings.Replacer contracts"},
 		Technique:   "static analysis: value-shape checks of counter updates paired with container updates (conservation), check-then-insert dominance, escaping-discipline check of formatted output (operands traced to replacers whose constant tables cover the format's separators), must-pass-through",
